@@ -21,8 +21,6 @@ ASSUMPTIONS = ["value round-trip inside unsigned-varint (Uvi::decode / encode::u
                "all byte-split schedules are not executed: split-independence is claimed only through the state-restoration clauses",
                "`len as usize` is lossless (64-bit targets)"]
 MP = "libp2p_mplex"
-ST = r"std::mem::replace\(self\.decoder_state, libp2p_mplex::codec::CodecDecodeState::Poisoned\{\}\)"
-MAXC = "const:libp2p_mplex::codec::MAX_FRAME_SIZE"
 
 SELFTEST = [
     {"mutation": "seeded/C25: len > MAX_FRAME_SIZE check moved into HasHeaderAndLen after the need-more-bytes return",
@@ -38,32 +36,55 @@ SELFTEST = [
     {"mutation": "encode: Reset/Dialer tag 6 -> 5", "caught_by": "tags/encoder tags are distinct"},
     {"mutation": "into_local: role: self.role (not flipped)", "caught_by": "tags/into_local mirrors the role"},
     {"mutation": "encode: length prefix written from header_bytes.len()", "caught_by": "encode/length prefix is the payload length"},
+    {"mutation": "(neutral, must stay silent) /verif/neutral/mux: 01.diff (named constants), 02.diff (check extracted into a Result helper), a bool helper `fits_frame`, `?` -> match in the Begin arm", "caught_by": "silent"},
 ]
 
 
 def _tag_of(e, shift_out):
-    """header expression of the encoder -> (tag, rendered num expr) or None."""
-    if e[0] == "bin" and e[1] == "BitOr" and e[3][0] == "const" and e[2][0] == "bin" and e[2][1] == "Shl":
-        shift_out.add(e[2][3][1] if e[2][3][0] == "const" else None)
-        return e[3][1], render(e[2][2])
-    if e[0] == "bin" and e[1] == "Shl":
-        shift_out.add(e[3][1] if e[3][0] == "const" else None)
+    """header expression of the encoder -> (tag, rendered num expr) or None.  Constants are matched by value."""
+    if e[0] == "bin" and e[1] == "BitOr":
+        for sh, k in ((e[2], e[3]), (e[3], e[2])):
+            if sh[0] == "bin" and sh[1] == "Shl" and lib_mux.cval(k) is not None and lib_mux.cval(sh[3]) is not None:
+                shift_out.add(lib_mux.cval(sh[3]))
+                return lib_mux.cval(k), render(sh[2])
+        return None
+    if e[0] == "bin" and e[1] == "Shl" and lib_mux.cval(e[3]) is not None:
+        shift_out.add(lib_mux.cval(e[3]))
         return 0, render(e[2])
     return None
+
+
+def _dispatch(dec):
+    """The state dispatch `match mem::replace(&mut self.<field>, Poison)`: (switch bb, state expr text, field name)."""
+    for bi in sorted(dec.live):
+        info = dec.switch_info(bi)
+        if not info or info[0][0] != "discr":
+            continue
+        c = info[0][1]
+        if c[0] == "call" and mir.strip_generics(c[1]).endswith("mem::replace") and c[2] and c[2][0][0] == "field":
+            labs = {l for ls in info[1].values() for l in ls}
+            if "HasHeaderAndLen" in labs:
+                return bi, render(c), c[2][0][2]
+    raise mir.RuleError("decoder state dispatch (match mem::replace(&mut self.<state>, ..)) not found")
 
 
 def check(ctx):
     prog = ctx.prog
     mx = prog.const(MP, r"codec::MAX_FRAME_SIZE$").get("v")
     ctx.ob("const", "MAX_FRAME_SIZE == 1 MiB", mx == 1024 * 1024, msg="MAX_FRAME_SIZE = %s" % mx)
-    dec = ctx.body(MP, r"codec::Codec as asynchronous_codec::Decoder>::decode$")
-    enc = ctx.body(MP, r"codec::Codec as asynchronous_codec::Encoder>::encode$")
+    dec = lib_mux.canon_args(ctx.body(MP, r"codec::Codec as asynchronous_codec::Decoder>::decode$"), ["self", "src"])
+    enc = lib_mux.canon_args(ctx.body(MP, r"codec::Codec as asynchronous_codec::Encoder>::encode$"), ["self", "item", "dst"])
     wd, we = "%s:%d" % (dec.file, dec.line), "%s:%d" % (enc.file, enc.line)
+    dsw, STX, SFIELD = _dispatch(dec)
+    HDR, LENF = STX + "@HasHeaderAndLen.0", STX + "@HasHeaderAndLen.1"
+    SRCLEN = "asynchronous_codec::BytesMut::len(src)"
+    is_max = lambda e: lib_mux.cval(e) == mx and mx is not None
+    anyx = lambda e: True
 
     # ------------------------------------------------------------------ helper constructors
     roles = {}
     for nm in ("dialer", "listener"):
-        b = ctx.body(MP, r"codec::RemoteStreamId::%s$" % nm)
+        b = lib_mux.canon_args(ctx.body(MP, r"codec::RemoteStreamId::%s$" % nm), ["num"])
         aggs = b.agg_sites(r"codec::RemoteStreamId$")
         r = render(b.site_expr(aggs[0])) if len(aggs) == 1 else ""
         m = re.match(r"^libp2p_mplex::codec::RemoteStreamId::RemoteStreamId\{num: num, role: libp2p_core::Endpoint::(\w+)\{\}\}$", r)
@@ -78,11 +99,11 @@ def check(ctx):
     # ------------------------------------------------------------------ encoder table
     hs = enc.call_sites(r"unsigned_varint::encode::u64$")
     ctx.floor("tags", "encode::u64(header)", hs, 1, exact=True)
-    harg = enc.site_expr(hs[0])[2][0]
+    harg = enc.site_expr(hs[0])[2][0] if hs else ("unknown", "?")
     tl = None
-    for s in mir.walk(harg):
-        if s[0] == "local":
-            tl = s[1]
+    for x in mir.walk(harg):
+        if x[0] == "local":
+            tl = x[1]
     if tl is None:
         raise mir.RuleError("encoder header is not a match-result local: %s" % render(harg))
     etab, shifts, rows = {}, set(), 0
@@ -117,70 +138,86 @@ def check(ctx):
     ctx.ob("tags", "encoder tags are distinct", len(set(nonopen)) == len(nonopen) and etab.get(("Open", "Dialer")) not in nonopen, we, str(sorted(etab.items())))
 
     # ------------------------------------------------------------------ decoder table
-    msw = [bi for bi in sorted(dec.live) if dec.switch_info(bi) and re.match(r"^BitAnd\(%s@HasHeaderAndLen\.0, \d+\)$" % ST, render(dec.switch_info(bi)[0]))]
+    msw, mask = [], None
+    for bi in sorted(dec.live):
+        info = dec.switch_info(bi)
+        c = info[0] if info else None
+        while c is not None and c[0] == "cast":
+            c = c[1]
+        if c is not None and c[0] == "bin" and c[1] == "BitAnd":
+            for h, k in ((c[2], c[3]), (c[3], c[2])):
+                if render(h) == HDR and lib_mux.cval(k) is not None:
+                    msw.append(bi)
+                    mask = lib_mux.cval(k)
     ctx.floor("tags", "decoder tag switch", msw, 1, exact=True)
-    cond, labs = dec.switch_info(msw[0])
-    mask = cond[3][1]
-    explicit = sorted(l for ls in labs.values() for l in ls if isinstance(l, int))
-    dtab = {}
+    dtab, explicit = {}, []
     frames = dec.agg_sites(r"codec::Frame$")
     ctx.floor("tags", "decoder Frame constructions", frames, 7)
-    for s in frames:
-        e = dec.site_expr(s)
-        gs = [g for g in dec.guards_on_all_paths(s.bb) if g[2] == msw[0]]
-        tags = sorted(gs[0][1]) if gs else []
-        fields = dict((f, render(x)) for f, x in e[4])
-        m = re.match(r"^libp2p_mplex::codec::RemoteStreamId::(dialer|listener)\(Shr\(%s@HasHeaderAndLen\.0, (\d+)\)\)$" % ST, fields.get("stream_id", ""))
-        ok = len(tags) == 1 and isinstance(tags[0], int) and m is not None
-        ctx.ob("tags", "decode tag %s: one tag, id = RemoteStreamId::<role>(header >> shift)" % (tags[0] if tags else "?"), ok, s.loc(), "%s -> %s" % (tags, fields.get("stream_id", "")[-60:]))
-        if not ok:
-            continue
-        shifts.add(int(m.group(2)))
-        dtab[tags[0]] = (e[3], roles.get(m.group(1)))
-        if e[3] == "Data":
-            want = "asynchronous_codec::BytesMut::freeze(asynchronous_codec::BytesMut::split_to(src, " + ST.replace("\\", "") + "@HasHeaderAndLen.1))"
-            ctx.ob("tags", "decode tag %s: payload is exactly the declared `len` bytes" % tags[0], fields.get("data") == want, s.loc(), fields.get("data", "")[-90:])
-    ctx.ob("tags", "shift is the same constant in encoder and decoder and mask == 2^shift - 1",
-           len(shifts) == 1 and None not in shifts and mask == (1 << list(shifts)[0]) - 1, wd, "shifts %s mask %s" % (sorted(map(str, shifts)), mask))
-    ctx.ob("tags", "decoder handles exactly the tags the encoder emits", sorted(dtab) == explicit == sorted(set(etab.values())), wd,
-           "decoder tags %s, switch labels %s, encoder tags %s" % (sorted(dtab), explicit, sorted(set(etab.values()))))
-    for (v, role), tag in sorted(etab.items()):
-        got = dtab.get(tag)
-        want = (v, "Dialer") if v == "Open" else (v, role)
-        ctx.ob("tags", "decode(encode(%s, %s)) is the same frame" % (v, role if v != "Open" else "*"), got == want, wd,
-               "tag %s decodes to %s, expected %s" % (tag, got, want))
-    # every other tag value is rejected
-    other = [(bi, t) for bi, t in lib.arm_entry(dec, r"^BitAnd\(.*@HasHeaderAndLen\.0, \d+\)$", "otherwise")]
-    ctx.floor("tags", "unknown-tag edge", other, 1, exact=True)
-    z = lib_mux.zero_assigns(dec)
-    for bi, t in other:
-        reach = dec.reachable([t])
-        res = sorted({z[b][:26] for b in reach if b in z})
-        ctx.ob("tags", "unknown tag reaches only Err", res == ["std::result::Result::Err{0"], wd, str(res))
-        st = [s for s in dec.field_write_sites("decoder_state") if s.bb in reach]
-        ctx.ob("tags", "unknown tag leaves the decoder poisoned", not st, wd, "state stores after the unknown-tag edge: %d" % len(st))
+    if len(msw) == 1:
+        labs = dec.switch_info(msw[0])[1]
+        explicit = sorted(l for ls in labs.values() for l in ls if isinstance(l, int))
+        for s in frames:
+            e = dec.site_expr(s)
+            gs = [g for g in dec.guards_on_all_paths(s.bb) if g[2] == msw[0]]
+            tags = sorted(gs[0][1], key=str) if gs else []
+            fields = dict(e[4])
+            sid = fields.get("stream_id", ("unknown", "?"))
+            ctor, sh = None, None
+            if sid[0] == "call" and len(sid[2]) == 1 and sid[2][0][0] == "bin" and sid[2][0][1] == "Shr" and render(sid[2][0][2]) == HDR:
+                m = re.search(r"codec::RemoteStreamId::(dialer|listener)$", mir.strip_generics(sid[1]))
+                ctor, sh = (m.group(1) if m else None), lib_mux.cval(sid[2][0][3])
+            ok = len(tags) == 1 and isinstance(tags[0], int) and ctor is not None and sh is not None
+            ctx.ob("tags", "decode tag %s: one tag, id = RemoteStreamId::<role>(header >> shift)" % (tags[0] if tags else "?"), ok, s.loc(), "%s -> %s" % (tags, render(sid)[-60:]))
+            if not ok:
+                continue
+            shifts.add(sh)
+            dtab[tags[0]] = (e[3], roles.get(ctor))
+            if e[3] == "Data":
+                want = "asynchronous_codec::BytesMut::freeze(asynchronous_codec::BytesMut::split_to(src, %s))" % LENF
+                got = render(fields.get("data", ("unknown", "?")))
+                ctx.ob("tags", "decode tag %s: payload is exactly the declared `len` bytes" % tags[0], got == want, s.loc(), got[-90:])
+        ctx.ob("tags", "shift is the same constant in encoder and decoder and mask == 2^shift - 1",
+               len(shifts) == 1 and None not in shifts and mask == (1 << list(shifts)[0]) - 1, wd, "shifts %s mask %s" % (sorted(map(str, shifts)), mask))
+        ctx.ob("tags", "decoder handles exactly the tags the encoder emits", sorted(dtab) == explicit == sorted(set(etab.values())), wd,
+               "decoder tags %s, switch labels %s, encoder tags %s" % (sorted(dtab), explicit, sorted(set(etab.values()))))
+        for (v, role), tag in sorted(etab.items()):
+            got = dtab.get(tag)
+            want = (v, "Dialer") if v == "Open" else (v, role)
+            ctx.ob("tags", "decode(encode(%s, %s)) is the same frame" % (v, role if v != "Open" else "*"), got == want, wd,
+                   "tag %s decodes to %s, expected %s" % (tag, got, want))
+        # every other tag value is rejected
+        other = [(msw[0], t) for t, ls in labs.items() if "otherwise" in ls]
+        ctx.floor("tags", "unknown-tag edge", other, 1, exact=True)
+        z = lib_mux.zero_assigns(dec)
+        for bi, t in other:
+            reach = dec.reachable([t])
+            res = sorted({("Err" if lib_mux.is_err_result(z[b]) else z[b][:40]) for b in reach if b in z})
+            ctx.ob("tags", "unknown tag reaches only Err", res == ["Err"], wd, str(res))
+            st = [s for s in dec.field_write_sites(SFIELD) if s.bb in reach]
+            ctx.ob("tags", "unknown tag leaves the decoder poisoned", not st, wd, "state stores after the unknown-tag edge: %d" % len(st))
 
     # ------------------------------------------------------------------ size limit before buffering
-    is_max = lambda t: t == MAXC
-    dle, dlt, dfound = lib_mux.accept_edges_le(dec, lambda t: True, is_max)
-    ele, elt, efound = lib_mux.accept_edges_le(enc, lambda t: True, is_max)
-    ctx.floor("size-limit", "decoder comparison with MAX_FRAME_SIZE", dfound, 1)
-    ctx.floor("size-limit", "encoder comparison with MAX_FRAME_SIZE", efound, 1)
-    ctx.ob("size-limit", "encoder and decoder accept the same lengths", bool(dle) and bool(ele) and not dlt and not elt, wd,
-           "decoder tests %s, encoder tests %s (both must accept exactly len <= MAX_FRAME_SIZE)" % ([o for _, o, _ in dfound], [o for _, o, _ in efound]))
+    drel = lib_mux.rel_edges(dec, anyx, is_max, prog)
+    erel = lib_mux.rel_edges(enc, anyx, is_max, prog)
+    ctx.floor("size-limit", "decoder comparison with MAX_FRAME_SIZE", drel, 1)
+    ctx.floor("size-limit", "encoder comparison with MAX_FRAME_SIZE", erel, 1)
+    dacc = {x["rel"] for x in drel if x["rel"] in ("le", "lt")}
+    eacc = {x["rel"] for x in erel if x["rel"] in ("le", "lt")}
+    ctx.ob("size-limit", "encoder and decoder accept the same lengths", dacc == {"le"} and eacc == {"le"}, wd,
+           "decoder accepts on `len %s MAX`, encoder on `len %s MAX` (both must accept exactly len <= MAX_FRAME_SIZE)" % (sorted(dacc), sorted(eacc)))
+    ele = lib_mux.edges_with(erel, {"le", "lt"})
     stores = [s for s in dec.agg_sites(r"codec::CodecDecodeState$", "HasHeaderAndLen")]
     ctx.floor("size-limit", "HasHeaderAndLen constructions", stores, 2)
     fresh, invariant, fresh_obs = [], True, []
     for s in stores:
         f1 = render(dict(dec.site_expr(s)[4])["1"])
-        if f1 == ST.replace("\\", "") + "@HasHeaderAndLen.1":
+        if f1 == LENF:
             continue       # restoring the arm's own (already bounded) length
         fresh.append(s)
-        edges = {(bi, t) for (bi, t) in dle if any(b == bi and l == f1 for b, _, l in dfound)}
+        edges = {x["edge"] for x in drel if x["rel"] in ("le", "lt") and render(x["lhs"]) == f1}
         ok = bool(edges) and dec.must_pass_edges(s.bb, edges)
         invariant = invariant and ok
         fresh_obs.append((ok, s.loc(), "stored length %s %s" % (f1[-70:], "is the value tested against MAX_FRAME_SIZE on every path" if ok else "is stored on a path without the `<= MAX_FRAME_SIZE` edge on that value")))
-    ctx.floor("size-limit", "fresh HasHeaderAndLen constructions", fresh, 1)
     allocs = dec.call_sites(r"BytesMut::(reserve|split_to|split_off|resize|advance)$|BytesMut::with_capacity$")
     ctx.floor("size-limit", "reserve/split_to in decode", allocs, 2)
     need_invariant = False
@@ -189,18 +226,18 @@ def check(ctx):
         nm = mir.strip_generics(e[1]).split("::")[-1]
         arg = e[2][-1]
         lv = _leaves(arg)
-        from_state = any("HasHeaderAndLen.1" in render(x) for x in lv) and all(("HasHeaderAndLen.1" in render(x)) or render(x) == "asynchronous_codec::BytesMut::len(src)" or x[0] == "const" for x in lv)
-        edges = {(bi, t) for (bi, t) in dle if any(b == bi and l in render(arg) for b, _, l in dfound)}
+        from_state = any(render(x) == LENF for x in lv) and all(render(x) in (LENF, SRCLEN) or lib_mux.cval(x) is not None for x in lv)
+        edges = {x["edge"] for x in drel if x["rel"] in ("le", "lt") and any(render(x["lhs"]) == render(y) for y in lv)}
         local = bool(edges) and dec.must_pass_edges(s.bb, edges)
         need_invariant = need_invariant or not local
         ok = local or (from_state and invariant)
         ctx.ob("size-limit", "%s bounded by MAX_FRAME_SIZE" % nm, ok, s.loc(),
                "length %s: %s" % (render(arg)[-80:], "own guard" if local else ("taken from the bounded state field" if ok else "neither guarded here nor taken from a state whose every fresh construction is guarded")))
-        gs = dec.guards_on_all_paths(s.bb)
-        arms = [l for t, ls, _, c in gs if re.match(r"^discr\(%s\)$" % ST, t) for l in ls]
+        arms = [l for t, ls, d_, c in dec.guards_on_all_paths(s.bb) if d_ == dsw for l in ls]
         ctx.ob("size-limit", "%s only in the state that holds a checked length" % nm, arms == ["HasHeaderAndLen"] or local, s.loc(), "arm(s) %s" % arms)
     if need_invariant:
         # some site relies on "every HasHeaderAndLen state holds a length <= MAX_FRAME_SIZE": then every fresh construction must be guarded
+        ctx.floor("size-limit", "fresh HasHeaderAndLen constructions", fresh, 1)
         for ok, where, msg in fresh_obs:
             ctx.ob("size-limit", "fresh HasHeaderAndLen state only for len <= MAX_FRAME_SIZE", ok, where, msg)
     # encoder side
@@ -209,16 +246,18 @@ def check(ctx):
     for i, s in enumerate(puts):
         ok = bool(ele) and enc.must_pass_edges(s.bb, ele)
         ctx.ob("encode", "write #%d only for payloads <= MAX_FRAME_SIZE" % i, ok, s.loc(), "dominated by the data_len <= MAX_FRAME_SIZE edge" if ok else "reachable without the size test")
-    for _, op, l in efound:
-        ctx.ob("encode", "the tested length is the payload's", re.match(r"^core::slice::len\(<asynchronous_codec::Bytes as std::convert::AsRef>::as_ref\(_\d+\.1\)\)$", l) is not None, we, l)
     only_put = [s for s in puts if "::put" in render(enc.site_expr(s))]
     args = [render(enc.site_expr(s)[2][1]) for s in only_put]
+    PAY = args[2] if len(args) == 3 else "?"
+    PAYLEN = ("core::slice::len(<asynchronous_codec::Bytes as std::convert::AsRef>::as_ref(%s))" % PAY, "asynchronous_codec::Bytes::len(%s)" % PAY)
+    for x in erel:
+        if x["rel"] in ("le", "lt"):
+            ctx.ob("encode", "the tested length is the payload's", render(x["lhs"]) in PAYLEN, we, render(x["lhs"])[-100:] + (" (via %s)" % x["via"].split("::")[-1] if x["via"] else ""))
     ok_order = (len(args) == 3 and args[0].startswith("unsigned_varint::encode::u64(") and args[1].startswith("unsigned_varint::encode::usize(")
                 and re.match(r"^_\d+\.1$", args[2]) is not None)
-    ctx.ob("encode", "wire order is header, length, payload", ok_order and only_put[0].bb < only_put[1].bb and
-           dec is not None and enc.dominates(only_put[0].bb, only_put[1].bb) and enc.dominates(only_put[1].bb, only_put[2].bb), we, str([a[:50] for a in args]))
+    ctx.ob("encode", "wire order is header, length, payload", ok_order and enc.dominates(only_put[0].bb, only_put[1].bb) and enc.dominates(only_put[1].bb, only_put[2].bb), we, str([a[:50] for a in args]))
     if len(args) == 3:
-        ctx.ob("encode", "length prefix is the payload length", args[1].startswith("unsigned_varint::encode::usize(core::slice::len(<asynchronous_codec::Bytes as std::convert::AsRef>::as_ref(%s))" % args[2]), we, args[1][:140])
+        ctx.ob("encode", "length prefix is the payload length", any(args[1].startswith("unsigned_varint::encode::usize(%s, " % pl) for pl in PAYLEN), we, args[1][:140])
         ctx.ob("encode", "header written is the match result", re.match(r"^unsigned_varint::encode::u64\(_%d\.0, " % tl, args[0]) is not None and args[2] == "_%d.1" % tl, we, args[0][:80])
 
     # ------------------------------------------------------------------ decoder state machine
@@ -230,12 +269,17 @@ def check(ctx):
         if r.startswith("std::result::Result::Err"):
             return "Err"
         return "other"
-    rel, head = lib_mux.fsm_extract_field(dec, r"codec::CodecDecodeState$", "decoder_state", classify=classify)
+    rel, head = lib_mux.fsm_extract_field(dec, r"codec::CodecDecodeState$", SFIELD, classify=classify)
+    for rec in rel.values():       # `?` and an explicit `return Err(..)` are the same exit
+        if "residual" in rec["exits"]:
+            rec["exits"] = (rec["exits"] - {"residual"}) | {"Err"}
+        if "residual" in rec["on"]:
+            rec["on"].setdefault("Err", []).extend(rec["on"].pop("residual"))
     table = {
-        "Begin": {"next": {"HasHeader"}, "exits": {"Ok(None)", "residual"}},
-        "HasHeader": {"next": {"HasHeaderAndLen"}, "exits": {"Ok(None)", "residual", "Err"}},
-        "HasHeaderAndLen": {"next": set(), "exits": {"Ok(None)", "Ok(Some)", "Err"}},
-        "Poisoned": {"next": set(), "exits": {"Err"}},
+        "Begin": {"next": {"HasHeader"}, "must": {"Ok(None)"}, "may": {"Err"}},
+        "HasHeader": {"next": {"HasHeaderAndLen"}, "must": {"Ok(None)"}, "may": {"Err"}},
+        "HasHeaderAndLen": {"next": set(), "must": {"Ok(None)", "Ok(Some)", "Err"}, "may": set()},
+        "Poisoned": {"next": set(), "must": {"Err"}, "may": set()},
     }
     ctx.ob("fsm", "arms", set(rel) == set(table), wd, str(sorted(rel)))
     own = {"Begin": {}, "HasHeader": {"0": "@HasHeader.0"}, "HasHeaderAndLen": {"0": "@HasHeaderAndLen.0", "1": "@HasHeaderAndLen.1"}}
@@ -245,57 +289,57 @@ def check(ctx):
             continue
         nxt = {v for v, _, _ in rec["next"]}
         ctx.ob("fsm", "%s: successor states" % arm, nxt == want["next"], wd, "continue-edges store %s, reference %s" % (sorted(nxt), sorted(want["next"])))
-        must = want["exits"] - ({"Err", "residual"} if arm != "Poisoned" else set())
-        ctx.ob("fsm", "%s: exit kinds" % arm, must <= rec["exits"] <= (want["exits"] | ({"Err"} if arm != "Begin" else set())), wd,
-               "exits %s, reference %s (Err/`?` exits optional)" % (sorted(rec["exits"]), sorted(want["exits"])))
+        ctx.ob("fsm", "%s: exit kinds" % arm, want["must"] <= rec["exits"] <= (want["must"] | want["may"]), wd,
+               "exits %s, reference %s (+ optional %s)" % (sorted(rec["exits"]), sorted(want["must"]), sorted(want["may"])))
         ctx.ob("fsm", "%s: no continue with the poison state" % arm, not rec["continue_unstored"], wd, "loop continues with Poisoned left in place" if rec["continue_unstored"] else "every continue re-assigns the state")
-        if "Ok(None)" in want["exits"]:
+        if "Ok(None)" in want["must"]:
             rs = rec["on"].get("Ok(None)", [])
             ctx.ob("fsm", "%s: state restored before every Ok(None)" % arm, bool(rs) and all(v is not None for v, _, _ in rs), wd,
                    "restores: %s" % [v for v, _, _ in rs])
             for v, fields, site in rs:
                 if v is None:
                     continue
-                ok = v == arm and set(fields) == set(own[arm]) and all(fields[f] == ST.replace("\\", "") + suf for f, suf in own[arm].items())
+                ok = v == arm and set(fields) == set(own[arm]) and all(fields[f] == STX + suf for f, suf in own[arm].items())
                 ctx.ob("fsm", "%s: Ok(None) restores the same state" % arm, ok, site.loc(), "restored %s%s" % (v, {f: x[-24:] for f, x in fields.items()}))
-        if "Ok(Some)" in want["exits"]:
+        if "Ok(Some)" in want["must"]:
             rs = rec["on"].get("Ok(Some)", [])
             ctx.ob("fsm", "%s: decoder reset to Begin before every Ok(Some(frame))" % arm, [v for v, _, _ in rs] == ["Begin"], wd, str([v for v, _, _ in rs]))
-        for k in ("Err", "residual"):
-            rs = rec["on"].get(k, [])
-            ctx.ob("fsm", "%s: %s exits leave no half-updated state" % (arm, k), all(v is None for v, _, _ in rs), wd, str([v for v, _, _ in rs]), nontrivial=bool(rs))
+        rs = rec["on"].get("Err", [])
+        ctx.ob("fsm", "%s: error exits leave no half-updated state" % arm, all(v is None for v, _, _ in rs), wd, str([v for v, _, _ in rs]), nontrivial=bool(rs))
+    VAR = r"Uvi as asynchronous_codec::Decoder>::decode\(self\.\w+, src\)\)?(@Continue\.0)?(@Ok\.0)?@Some\.0"
     for v, fields, site in rel.get("Begin", {}).get("next", []):
-        ctx.ob("fsm", "Begin->HasHeader carries the decoded header", re.search(r"Uvi as asynchronous_codec::Decoder>::decode\(self\.varint_decoder, src\)\)@Continue\.0@Some\.0$", fields.get("0", "")) is not None, site.loc(), fields.get("0", "")[-80:])
+        ctx.ob("fsm", "Begin->HasHeader carries the decoded header", re.search(VAR + "$", fields.get("0", "")) is not None, site.loc(), fields.get("0", "")[-80:])
     for v, fields, site in rel.get("HasHeader", {}).get("next", []):
-        ctx.ob("fsm", "HasHeader->HasHeaderAndLen keeps the header", fields.get("0") == ST.replace("\\", "") + "@HasHeader.0", site.loc(), fields.get("0", "")[-60:])
-        ctx.ob("fsm", "HasHeader->HasHeaderAndLen carries the decoded length", re.search(r"Uvi as asynchronous_codec::Decoder>::decode\(self\.varint_decoder, src\)\)@Continue\.0@Some\.0 as usize\)$", fields.get("1", "")) is not None, site.loc(), fields.get("1", "")[-80:])
+        ctx.ob("fsm", "HasHeader->HasHeaderAndLen keeps the header", fields.get("0") == STX + "@HasHeader.0", site.loc(), fields.get("0", "")[-60:])
+        ctx.ob("fsm", "HasHeader->HasHeaderAndLen carries the decoded length", re.search(VAR + r"( as usize\))?$", fields.get("1", "")) is not None, site.loc(), fields.get("1", "")[-80:])
 
     # ------------------------------------------------------------------ no panic in decode
     inv, seen = lib.panic_inventory(prog, MP, [dec], depth=1)
     lib.check_inventory(ctx, "nopanic", "Codec::decode", inv, {"buf": (1, "src.split_to(len) on the `src.len() >= len` edge")}, seen)
     for b, k, det, s in inv:
-        if k == "buf":
-            e = dec.site_expr(s)
-            arg = render(e[2][-1])
-            ctx.guarded("nopanic", "split_to only when len bytes are buffered", s,
-                        lambda c, r, l, arg=arg: (l == "false" and r == "Lt(asynchronous_codec::BytesMut::len(src), %s)" % arg) or
-                        (l == "true" and r in ("Ge(asynchronous_codec::BytesMut::len(src), %s)" % arg, "Le(%s, asynchronous_codec::BytesMut::len(src))" % arg)),
-                        "src.len() >= len for the very len split off")
+        if k == "buf" and b is dec:
+            arg = render(dec.site_expr(s)[2][-1])
+            ge = lib_mux.edges_with(lib_mux.rel_edges(dec, lambda e: render(e) == SRCLEN, lambda e, arg=arg: render(e) == arg), {"ge", "gt"})
+            ok = bool(ge) and dec.must_pass_edges(s.bb, ge)
+            ctx.ob("nopanic", "split_to only when len bytes are buffered", ok, s.loc(), ("guard present on all paths: " if ok else "a path reaches this site without the guard: ") + "src.len() >= len for the very len split off")
     ov = lib_mux.overflow_asserts(dec)
     ctx.floor("nopanic", "arithmetic overflow checks in decode", ov, 2)
-    for cnd, msg, s in ov:
-        m = re.match(r"^Lt\(\((\d+) as u32\), (\d+)\)$", cnd)
-        if m:
-            ctx.ob("nopanic", "shift amount is a constant below the bit width", int(m.group(1)) < int(m.group(2)), s.loc(), cnd)
+    for bi in sorted(dec.live):
+        t = dec.blocks[bi]["term"]
+        if not (t and t["k"] == "assert" and t["msg"].startswith("overflow")):
             continue
-        m = re.match(r"^SubWithOverflow\((.*), (asynchronous_codec::BytesMut::len\(src\))\)\.1$", cnd)
-        if m:
-            a = m.group(1)
-            ctx.guarded("nopanic", "len - src.len() only when src.len() < len", s,
-                        lambda c, r, l, a=a: (l == "true" and r == "Lt(asynchronous_codec::BytesMut::len(src), %s)" % a) or (l == "true" and r == "Gt(%s, asynchronous_codec::BytesMut::len(src))" % a),
-                        "src.len() < len")
+        c = dec.operand_expr(t["c"])
+        s = mir.Site(dec, bi)
+        if c[0] == "bin" and c[1] == "Lt" and lib_mux.cval(c[2]) is not None and lib_mux.cval(c[3]) is not None:
+            ctx.ob("nopanic", "shift amount is a constant below the bit width", lib_mux.cval(c[2]) < lib_mux.cval(c[3]), s.loc(), render(c))
             continue
-        ctx.ob("nopanic", "unexpected checked arithmetic on received values", False, s.loc(), "%s (%s)" % (cnd[:120], msg))
+        if c[0] == "field" and c[1][0] == "bin" and c[1][1] == "SubWithOverflow":
+            a, bsub = render(c[1][2]), render(c[1][3])
+            le = lib_mux.edges_with(lib_mux.rel_edges(dec, lambda e, bsub=bsub: render(e) == bsub, lambda e, a=a: render(e) == a), {"le", "lt"})
+            ok = bool(le) and dec.must_pass_edges(bi, le)
+            ctx.ob("nopanic", "len - src.len() only when src.len() < len", ok, s.loc(), ("guard present on all paths: " if ok else "a path reaches this site without the guard: ") + "%s <= %s" % (bsub[-40:], a[-40:]))
+            continue
+        ctx.ob("nopanic", "unexpected checked arithmetic on received values", False, s.loc(), "%s (%s)" % (render(c)[:120], t["msg"]))
 
 
 def _leaves(e):
